@@ -31,7 +31,8 @@ RULE = (
     "valid NON-CONVEX grids: 5 dart-quadrilateral grids (positive volumes adding up to the domain "
     "measure, closed and non-self-intersecting cells, centroid outside an own face); sequences: ONE "
     "Tpsa object used for two grids in a row (same sizes / different topology; same topology / "
-    "different geometry; the same grid object moved)"
+    "different geometry; the same grid object moved); 4 prism grids (3- and 4-node faces) side-wise "
+    "+ <=1 flips"
 )
 ASSUMPTIONS = [
     "constant Lame parameters; every boundary face entirely Dirichlet (value = translation) "
@@ -70,6 +71,12 @@ DARTS = [  # valid non-convex (dart) quadrilaterals: an interior node moved past
     {"kind": "cart", "n": [3, 2], "set": [[5, [0.06, 0.1]]]},
     {"kind": "cart", "n": [3, 3], "set": [[5, [0.05, 0.07]], [10, [0.95, 0.93]]]},
 ]
+PRISMS = [  # extruded triangle grids: cells with triangular AND quadrilateral faces
+    {"kind": "prism", "n": [2, 2], "z": [0, 0.4, 1]},
+    {"kind": "prism", "n": [2, 1], "z": [0, 0.4, 1]},
+    {"kind": "prism", "n": [2, 2], "z": [0, 0.4, 1], "pert": [[4, [1, -1]]]},
+    {"kind": "prism", "n": [2, 1], "z": [0, 0.4, 1], "map": "shear"},
+]
 MULAM = [(1.0, 1.0), (1.0, 10.0), (3.0, 0.5), (3.0, 0.0)]
 
 
@@ -104,6 +111,8 @@ def cases(tier):
     # centre-to-face distance): side-wise + <=1 flips (thorough: <=2), all Lame pairs
     for sp in DARTS:
         out += _sides_flips(sp, 1 if tier == "quick" else 2)
+    for sp in PRISMS:  # mixed face types
+        out += _sides_flips(sp, 1)
     # ONE Tpsa object reused for two grids (same sizes / different topology; same topology /
     # different geometry; the same grid object moved)
     for kind, s1, s2 in G.SEQ_PAIRS_2D + G.SEQ_PAIRS_3D:
